@@ -234,12 +234,10 @@ func (pb *PrimaryBlock) UnmarshalCbor(r io.Reader) error {
 	}
 
 	if blockLen == 9 || blockLen == 11 {
-		if crcCalc, crcErr := calculateCRCBuff(crcBuff, pb.CRCType); crcErr != nil {
-			return crcErr
-		} else if crcVal, err := cboring.ReadByteString(r); err != nil {
+		if crcVal, err := cboring.ReadByteString(r); err != nil {
 			return err
-		} else if !bytes.Equal(crcCalc, crcVal) {
-			return fmt.Errorf("invalid CRC value: %x instead of expected %x", crcVal, crcCalc)
+		} else if crcErr := checkReceivedCRC(crcBuff.Bytes(), pb.CRCType, crcVal); crcErr != nil {
+			return crcErr
 		} else {
 			pb.CRC = crcVal
 		}
